@@ -43,11 +43,15 @@ func init() {
 			return []modeSpec{
 				{name: "raw", n: a, perChild: a / 16, parallel: 8, timeout: 30 * time.Minute, env: []string{"VERIF_HOOK=trace", "VERIF_HOOK_PROB=30", "VERIF_HOOK_MAXUS=30"}},
 				{name: "engine", n: b, perChild: b / 16, timeout: 30 * time.Minute, env: []string{"VERIF_HOOK=chaos", "VERIF_HOOK_PROB=30", "VERIF_HOOK_MAXUS=30"}},
+				{name: "crowd", n: b / 20, perChild: (b/20 + 15) / 16, timeout: 30 * time.Minute},
 			}
 		},
 		run: func(c *caseCtx) caseResult {
 			if c.mode == "raw" {
 				return c03Raw(c)
+			}
+			if c.mode == "crowd" {
+				return c03Crowd(c)
 			}
 			return c03Engine(c)
 		},
@@ -253,12 +257,25 @@ func analyseInboxTrace(tr []vhook.Event) (w1, w2, contended, startNonEmpty int, 
 type c03Recv struct {
 	n    int64
 	kick int64
+	// the first incarnations fail while they are being started (1: in Initialized, 2: in Started)
+	failStart []int
+	inc       int32
 }
 
 type kickMsg struct{}
 
 func (a *c03Recv) Receive(c *actor.Context) {
 	switch c.Message().(type) {
+	case actor.Initialized:
+		k := int(atomic.AddInt32(&a.inc, 1)) - 1
+		if k < len(a.failStart) && a.failStart[k] == 1 {
+			panic("verif: failure in Initialized")
+		}
+	case actor.Started:
+		k := int(atomic.LoadInt32(&a.inc)) - 1
+		if k < len(a.failStart) && a.failStart[k] == 2 {
+			panic("verif: failure in Started")
+		}
 	case *tmsg:
 		userPerturb()
 		atomic.AddInt64(&a.n, 1)
@@ -281,12 +298,20 @@ func c03Engine(c *caseCtx) (res caseResult) {
 	rounds := 20
 	var recvs []*c03Recv
 	var pids []*actor.PID
+	bumpy := 0
 	for i := 0; i < nA; i++ {
 		rc := &c03Recv{}
+		if r.Intn(4) == 0 {
+			// the actor comes up only at the second or third attempt: it is started all the same
+			for k := 1 + r.Intn(2); k > 0; k-- {
+				rc.failStart = append(rc.failStart, 1+r.Intn(2))
+			}
+			bumpy++
+		}
 		recvs = append(recvs, rc)
-		pids = append(pids, e.Spawn(func() actor.Receiver { return rc }, "c03", actor.WithID(fmt.Sprint(i)), actor.WithInboxSize(pick(r, 1, 2, 8))))
+		pids = append(pids, e.Spawn(func() actor.Receiver { return rc }, "c03", actor.WithID(fmt.Sprint(i)), actor.WithInboxSize(pick(r, 1, 2, 8)), actor.WithMaxRestarts(5), actor.WithRestartDelay(pick(r, 0, 200*time.Microsecond))))
 	}
-	res.Desc = fmt.Sprintf("engine actors=%d senders=%d per=%d rounds=%d", nA, nS, per, rounds)
+	res.Desc = fmt.Sprintf("engine actors=%d (%d started at a later attempt) senders=%d per=%d rounds=%d", nA, bumpy, nS, per, rounds)
 	total := int64(0)
 	for round := 0; round < rounds; round++ {
 		var wg sync.WaitGroup
@@ -316,25 +341,113 @@ func c03Engine(c *caseCtx) (res caseResult) {
 				return
 			}
 			before := sum()
-			// nothing has been processed for 10 s. Prove by state that the rest is sitting in an idle inbox:
-			// one kick per actor makes it appear
+			// nothing has been processed for 10 s. Decide on state. First: has the process come to rest
+			// (no goroutine that could still deliver anything)?
+			rest, where := atRest(3 * time.Second)
+			// Second: one kick per actor shows whether the rest was sitting in an idle inbox
 			for _, p := range pids {
 				e.Send(p, kickMsg{})
 			}
 			if fin2, _ := settle(wd/3, 10*time.Second, func() bool { return sum() == total }, sum); fin2 {
 				res.violate("round %d: senders fell silent with %d of %d messages processed and nothing moved for 10 s; the remaining %d were processed only after a further message kicked the actor (lost wake-up)", round, before, total, total-before)
+			} else if rest {
+				res.violate("round %d: senders fell silent with %d of %d messages processed; the process then came to rest (every goroutine parked, none running, runnable or sleeping: %s) with %d accepted messages unprocessed, and a further message to each actor changed nothing", round, before, total, where, total-before)
 			} else {
-				res.inconclusive("round %d: %d of %d processed, also after a kick", round, sum(), total)
+				res.inconclusive("round %d: %d of %d processed, also after a kick (%s)", round, sum(), total, where)
 			}
 			return
 		}
 	}
 	res.count("engine_messages", total)
-	res.Sig = sigHash("engine", nA, nS, per)
+	res.Sig = sigHash("engine", nA, nS, per, bumpy)
 	if c.n < 1 {
 		res.Sample = map[string]any{"scenario": res.Desc, "processed": total}
 	}
 	for _, p := range pids {
+		e.Poison(p)
+	}
+	return res
+}
+
+// ---- crowd: many actors busy at once ---------------------------------------------
+
+type crowdRecv struct {
+	gate    chan struct{}
+	entered *int64
+	done    *int64
+}
+
+type openMsg struct{}
+
+func (a *crowdRecv) Receive(c *actor.Context) {
+	switch c.Message().(type) {
+	case *tmsg:
+		atomic.AddInt64(a.entered, 1)
+		<-a.gate
+		atomic.AddInt64(a.done, 1)
+	case openMsg:
+		close(a.gate)
+		atomic.AddInt64(a.done, 1)
+	}
+}
+
+// c03Crowd: K actors are each inside Receive waiting for something only another actor
+// can provide (a gate that the opener actor closes when it gets its message). The
+// opener's message was accepted by a started actor, so it must be processed whatever
+// the other actors are doing; then everybody finishes.
+func c03Crowd(c *caseCtx) (res caseResult) {
+	r := c.rng
+	wd := watchdog(c.tier)
+	e, err := actor.NewEngine(actor.NewEngineConfig())
+	if err != nil {
+		res.inconclusive("engine: %v", err)
+		return
+	}
+	P := runtime.GOMAXPROCS(0)
+	K := pick(r, 3, P+1, 4*P+1, 16*P+1, 1100)
+	gate := make(chan struct{})
+	var entered, done int64
+	var pids []*actor.PID
+	for i := 0; i < K; i++ {
+		pids = append(pids, e.Spawn(func() actor.Receiver { return &crowdRecv{gate: gate, entered: &entered, done: &done} }, "crowd", actor.WithID(fmt.Sprint(i))))
+	}
+	opener := e.Spawn(func() actor.Receiver { return &crowdRecv{gate: gate, entered: &entered, done: &done} }, "crowd", actor.WithID("opener"))
+	res.Desc = fmt.Sprintf("crowd of %d actors inside Receive, GOMAXPROCS=%d", K, P)
+	for _, p := range pids {
+		e.Send(p, &tmsg{})
+	}
+	progress := func() int64 { return atomic.LoadInt64(&entered) + atomic.LoadInt64(&done) }
+	stuck := func(phase string, want int64) bool {
+		rest, where := atRest(3 * time.Second)
+		if rest {
+			res.violate("%s: %d of %d accepted messages have been taken up and nothing moved for 10 s; the process is at rest (every goroutine parked, none running, runnable or sleeping: %s), so the remaining messages sit in the inboxes of started actors for good (%s)", phase, progress(), want, where, res.Desc)
+		} else {
+			res.inconclusive("%s: %d of %d, not at rest: %s", phase, progress(), want, where)
+		}
+		close(gate)
+		return true
+	}
+	if fin, _ := settle(wd, 10*time.Second, func() bool { return atomic.LoadInt64(&entered) == int64(K) }, progress); !fin {
+		stuck("messages to the crowd", int64(K))
+		return
+	}
+	e.Send(opener, openMsg{})
+	want := int64(2*K + 1)
+	if fin, _ := settle(wd, 10*time.Second, func() bool { return progress() == want }, progress); !fin {
+		select {
+		case <-gate:
+			res.inconclusive("the gate is open but only %d of %d handler runs completed", progress(), want)
+		default:
+			stuck("message to the opener while the crowd waits", want)
+		}
+		return
+	}
+	res.count("crowd_actors", int64(K))
+	res.Sig = sigHash("crowd", K)
+	if c.n < 1 {
+		res.Sample = map[string]any{"scenario": res.Desc}
+	}
+	for _, p := range append(pids, opener) {
 		e.Poison(p)
 	}
 	return res
